@@ -24,7 +24,8 @@ REQUIRED_PROBES = ["merge_breakpoints", "merger_iter"]
 REQUIRED_FEATURES = ["inputs:mixed-int-float-dtypes", "inputs:has-empty", "inputs:identical-support", "inputs:disjoint-support", "agg:max", "agg:min",
                      "agg:mean", "assoc", "refuse:binsize", "refuse:chromsizes", "refuse:variable-bins",
                      "refuse:storage-mode", "overflow:int32", "overflow:uint16", "overflow:fits-with-dtypes-override",
-                     "mode:square", "mode:symm", "mergebuf:1", "inputs:all-empty", "via:cli-merge"]
+                     "mode:square", "mode:symm", "mergebuf:1", "inputs:all-empty", "via:cli-merge",
+                     "via:cli-merge:field-dtype+agg", "inputs:legacy-without-storage-mode-attr:some"]
 
 
 def plan(tier, seed):
@@ -107,6 +108,15 @@ def run_merge_case(ctx, shard, i, rng):
         uri = os.path.join(d, f"in{j}.cool") if rng.random() < 0.7 else os.path.join(d, "multi.cool") + f"::/g{j}"
         make_cooler(uri, bt, P, symm=symm, extra={"score": Es[j]} if two else None, mode="a", count_dtype=cdts[j])
         uris.append(uri)
+    legacy = []
+    if symm and rng.random() < 0.25:
+        # files written by old versions carry no storage-mode attribute (it defaults to symmetric-upper)
+        for j, u in enumerate(uris):
+            if rng.random() < 0.6:
+                fp, _, gp = u.partition("::")
+                with h5py.File(fp, "r+") as f:
+                    del f[gp or "/"].attrs["storage-mode"]
+                legacy.append(j)
     rowlen = max([sum(1 for P in Ps for kk in P if kk[0] == r) for r in range(n)] or [1])
     nnz_all = sum(len(P) for P in Ps)
     base_desc = {"bt": bt, "symm": symm, "inputs": [sorted((a, b, v) for (a, b), v in P.items())[:80] for P in Ps],
@@ -132,6 +142,8 @@ def run_merge_case(ctx, shard, i, rng):
                 c.feature(f"mode:{'symm' if symm else 'square'}", f"k:{k}", f"family:{fam}")
                 if mixed and len({np.dtype(x).kind for x in cdts}) > 1:
                     c.feature("inputs:mixed-int-float-dtypes")
+                if legacy:
+                    c.feature("inputs:legacy-without-storage-mode-attr" + (":all" if len(legacy) == k else ":some"))
                 if any(not P for P in Ps) and any(P for P in Ps):
                     c.feature("inputs:has-empty")
                 if all(not P for P in Ps):
@@ -206,8 +218,24 @@ def run_merge_case(ctx, shard, i, rng):
             c.feature(f"agg:{agg}")
             col = "score" if agg == "mean" else "count"
             src = Es if agg == "mean" else Ps
-            cooler.merge_coolers(out, uris, mergebuf=int([2, 10**7][int(rng.integers(2))]),
-                                 columns=["count", "score"] if two else None, agg={col: agg})
+            if (i + len(agg)) % 2 and not mixed:
+                # the CLI spelling, field carrying BOTH a dtype and an aggregate (either order)
+                from click.testing import CliRunner
+                from cooler.cli import cli
+                dt = "float64" if col == "score" else "int64"
+                spec = f"{col}:dtype={dt},agg={agg}" if i % 2 else f"{col}:agg={agg},dtype={dt}"
+                args = ["merge", out] + uris + ["-c", str(int([2, 10**7][int(rng.integers(2))])), "--field", spec]
+                if two and col == "count":
+                    args += ["--field", "score"]
+                elif two:
+                    args += ["--field", "count"]
+                r = CliRunner().invoke(cli, args)
+                c.feature("via:cli-merge:field-dtype+agg")
+                if r.exit_code != 0:
+                    raise (r.exception or RuntimeError(r.output[-300:]))
+            else:
+                cooler.merge_coolers(out, uris, mergebuf=int([2, 10**7][int(rng.integers(2))]),
+                                     columns=["count", "score"] if two else None, agg={col: agg})
             keys, cols = read_pixels_raw(out, "/", ("count", "score"))
             want = model.fold((kv for S in src for kv in sorted(S.items())), agg)
             wk = sorted(want)
